@@ -150,6 +150,10 @@ func registerIntrinsics(P *Program) {
 		m.loopBound = int(m.constInt(args[0].(*Term), "LoopBound"))
 		return nil
 	}
+	I[vrtPkg+"StepLimit"] = func(m *Machine, fn *ssa.Function, args []Value) Value {
+		m.stepLimit = m.constInt(args[0].(*Term), "StepLimit")
+		return nil
+	}
 	I[vrtPkg+"AllocBudget"] = func(m *Machine, fn *ssa.Function, args []Value) Value {
 		m.allocBudget = m.constInt(args[0].(*Term), "AllocBudget")
 		return nil
